@@ -317,32 +317,32 @@ META = {
 FN = ["FileUploadHandler.__init__", "handle_upload", "_handle_delete", "_is_safe_path", "TitanRequest.from_line",
       "_parse_titan_params", "parse_url"]
 OBLIGATIONS = [
-    Ob("policy", policy, quick=600, thorough=1800,
+    Ob("policy", policy, quick=1000, thorough=3000,
        symbolic="size class (0/1/5/1000) vs limit (4/1000), token (absent/right/wrong) with auth on/off, media type allowed or not "
                 "with restriction on/off, delete on/off, existing or new target",
        functions=FN, stubs=["ModelFS"], note="discrete dimensions"),
-    Ob("effect1", effect1, quick=600, thorough=2400,
+    Ob("effect1", effect1, quick=1000, thorough=3000,
        symbolic="kinds of 2 tree entries (8 each), 1 path segment (10 quick / 14 thorough names), upload of 5 bytes or delete, delete on/off",
        functions=FN, stubs=["ModelFS"]),
-    Ob("effect2_a", effect2_a, quick=600, thorough=2400,
+    Ob("effect2_a", effect2_a, quick=1000, thorough=3000,
        symbolic="kinds of 2 tree entries, 2 path segments (first in {exist.gmi | new.gmi | sub | inner.gmi}), upload of 5 bytes or delete",
        functions=FN, stubs=["ModelFS"]),
-    Ob("effect2_b", effect2_b, quick=600, thorough=2400,
+    Ob("effect2_b", effect2_b, quick=1000, thorough=3000,
        symbolic="kinds of 2 tree entries, 2 path segments (first in {n1 | n2 | victim}), upload of 5 bytes or delete",
        functions=FN, stubs=["ModelFS"]),
-    Ob("effect2_c", effect2_c, quick=600, thorough=2400,
+    Ob("effect2_c", effect2_c, quick=1000, thorough=3000,
        symbolic="kinds of 2 tree entries, 2 path segments (first in {'..' | '' | up-x | ...}), upload of 5 bytes or delete",
        functions=FN, stubs=["ModelFS"]),
-    Ob("effect3_sub", effect3_sub, quick=600, thorough=2400,
+    Ob("effect3_sub", effect3_sub, quick=1000, thorough=3000,
        symbolic="kinds of 2 tree entries, 3 path segments (first fixed: sub; others over 5 quick / 14 thorough names), upload of 5 bytes",
        functions=FN, stubs=["ModelFS"]),
-    Ob("effect3_n1", effect3_n1, quick=600, thorough=2400,
+    Ob("effect3_n1", effect3_n1, quick=1000, thorough=3000,
        symbolic="kinds of 2 tree entries, 3 path segments (first fixed: n1; others over 5 quick / 14 thorough names), upload of 5 bytes",
        functions=FN, stubs=["ModelFS"]),
-    Ob("effect3_dotdot", effect3_dotdot, quick=600, thorough=2400,
+    Ob("effect3_dotdot", effect3_dotdot, quick=1000, thorough=3000,
        symbolic="kinds of 2 tree entries, path /../<a>/<b> with a in {up-x (prefix-sharing sibling), up, out, .., sub, ''} and b in 5 names, upload or delete",
        functions=FN, stubs=["ModelFS"]),
-    Ob("fault", fault, quick=600, thorough=2400,
+    Ob("fault", fault, quick=1000, thorough=3000,
        symbolic="kind of 1 tree entry, 7 target paths (existing, new, nested, new directory, symbolic entry, a directory), upload of 5 bytes "
                 "or delete, index of the failing mutating FS call (1..5), failure kind (EIO / EACCES / ENOSPC after 0..5 bytes)",
        functions=FN, stubs=["ModelFS with fault injection"]),
